@@ -111,7 +111,7 @@ def compare(fam, call, model):
         return [], real
     exp = rl.spec_resolve(fam, call)
     if 'id' in exp:
-        exp['id'] = [i for i, fd in fam.fds.items() if fd is exp['id']][0]
+        exp['id'] = exp['id'].tag
     return judge(real, exp, model, fam.fds), real
 
 
